@@ -95,6 +95,28 @@ def replay_phase(ev, rep, work, tier, pid, key_prefix="blockproc"):
                               "real block processor (%s build, %d workers, backlog %d): %s for input %s"
                               % (variant, W, e["mb"], what, json.dumps(e["input"])), artefact=p,
                               data={"input": e["input"], "predicted": exp, "real": got, "workers": W, "backlog": e["mb"]})
+    # ---- the block processor on top of the CONTROLLED pool: seeded schedules with a preemption point at every unlock ----
+    binp = bpbind.build_harness_sched(work)
+    for pi, c in enumerate([dict(nf=4, mb=0, ids=["a", "c", "z"], backlogs=(3, 4), flagsets=[[]], tails=(2, 3)),
+                            dict(nf=3, mb=1, ids=["a", "c"], backlogs=(3,), flagsets=[[]], tails=(2,))]):
+        cfg = work + "/emits%d.cfg" % pi
+        bpbind.cfg_for(cfg, emit=True, perfect=True, invariants=("Safety", "Deterministic"), **c)
+        r = run_tlc("BlockProc", cfg, workers=16, timeout=3000, heap="20g")
+        ev.tlc(r, "emit (controlled schedules) %s" % json.dumps(c))
+        em = [e for e in bpbind.parse_emitted(r["out"]) if len(e["input"]) >= 3
+              and len({json.dumps(s["tail"]) for s in e["input"]}) < len(e["input"])]       # repeated tails: in-flight / on-disk comparisons
+        em = rng.sample(em, min(len(em), 40 if tier == "quick" else 400))
+        seeds = list(range(1, 16 if tier == "quick" else 61))
+        n, bad = bpbind.replay_sched(binp, work, em, seeds, workers=2, tag="cs%d" % pi)
+        total += n
+        for (e, sd, what, exp, got) in bad[:5]:
+            n2, bad2 = bpbind.replay_sched(binp, work, [e], [sd], workers=2, tag="again")
+            if bad2:
+                p = work + "/viol_sched_%d.txt" % sd
+                bpbind.input_file(p, e["input"], e["mb"], 2)
+                rep.violation("%s-schedule" % key_prefix, "block processor on the controlled pool, schedule seed %d, backlog %d: %s for input %s"
+                              % (sd, e["mb"], what, json.dumps(e["input"])), artefact=p,
+                              data={"input": e["input"], "seed": sd, "predicted": exp, "real": got})
     return total
 
 
